@@ -1,1 +1,158 @@
-// harnesses for hexane/src/rle/load.rs
+// G-HEX-rle: the validator (rle_validate_encoding, what Column::load runs over untrusted bytes)
+// against the UNCHECKED decoder (RleDecoder::next / nth, what every read uses afterwards:
+// unwrap, unchecked slicing, from_utf8_unchecked). Child module of hexane::rle::load.
+//
+// The four Leb128 reads are stubbed with the reference readers of hx_root.rs, which
+// codec_ref_equiv_len0..=6,10,11 prove equal to the real ones on every input of those lengths
+// (assume-guarantee; it removes io::Error's drop glue, which made a 2-byte decode exceed 200 s).
+use super::*;
+use crate::rle::decoder::RleDecoder;
+use crate::verif_kani::{same_bytes, valid_utf8};
+
+const K: usize = 3;
+
+trait Probe: RleValue {
+    /// equality of two yielded items + the C39 obligation on each item
+    fn same(a: Self::Get<'_>, b: Self::Get<'_>) -> bool;
+    fn well_formed(a: Self::Get<'_>) -> bool;
+}
+impl Probe for u64 {
+    fn same(a: u64, b: u64) -> bool {
+        a == b
+    }
+    fn well_formed(_a: u64) -> bool {
+        true
+    }
+}
+impl Probe for Option<u64> {
+    fn same(a: Option<u64>, b: Option<u64>) -> bool {
+        a == b
+    }
+    fn well_formed(_a: Option<u64>) -> bool {
+        true
+    }
+}
+impl Probe for String {
+    fn same(a: &str, b: &str) -> bool {
+        same_bytes(a.as_bytes(), b.as_bytes())
+    }
+    fn well_formed(a: &str) -> bool {
+        valid_utf8(a.as_bytes())
+    }
+}
+impl Probe for Option<String> {
+    fn same(a: Option<&str>, b: Option<&str>) -> bool {
+        match (a, b) {
+            (None, None) => true,
+            (Some(x), Some(y)) => same_bytes(x.as_bytes(), y.as_bytes()),
+            _ => false,
+        }
+    }
+    fn well_formed(a: Option<&str>) -> bool {
+        match a {
+            Some(x) => valid_utf8(x.as_bytes()),
+            None => true,
+        }
+    }
+}
+
+/// For EVERY N-byte slab: the validator returns Ok/Err without panicking; if it accepts, the
+/// unchecked decoder walks the same bytes without panicking, yields exactly `len` items (the first
+/// K are pulled) and every string it hands out is valid UTF-8 by the independent validator.
+fn validate_then_decode<T: Probe, const N: usize>() {
+    let b: [u8; N] = kani::any();
+    match rle_validate_encoding::<T, Leb128>(&b) {
+        Ok(info) => {
+            assert!(info.segments <= N);
+            let mut d = RleDecoder::<T, Leb128>::new(&b);
+            let mut k = 0;
+            while k < K {
+                match d.next() {
+                    Some(v) => {
+                        assert!(k < info.len);
+                        assert!(T::well_formed(v));
+                    }
+                    None => {
+                        assert!(k == info.len);
+                        break;
+                    }
+                }
+                k += 1;
+            }
+            kani::cover!(N < 2 || info.len == 1);
+            kani::cover!(N < 2 || info.len >= 2);
+        }
+        Err(e) => {
+            kani::cover!(true);
+            std::mem::forget(e);
+        }
+    }
+}
+
+/// The skipping read agrees with the stepping read: on EVERY accepted N-byte slab and every
+/// k < K, `nth(k)` returns what k+1 calls of `next()` return (positional reads - get, advance_by,
+/// seek - go through nth, which skips runs without decoding them).
+fn nth_agrees_with_next<T: Probe, const N: usize>() {
+    let b: [u8; N] = kani::any();
+    if let Ok(info) = rle_validate_encoding::<T, Leb128>(&b) {
+        let k: usize = kani::any();
+        kani::assume(k < K);
+        let mut d1 = RleDecoder::<T, Leb128>::new(&b);
+        let mut d2 = RleDecoder::<T, Leb128>::new(&b);
+        let mut last = None;
+        let mut i = 0;
+        while i <= k {
+            last = d2.next();
+            i += 1;
+        }
+        let jumped = d1.nth(k);
+        match (jumped, last) {
+            (None, None) => assert!(k >= info.len),
+            (Some(x), Some(y)) => {
+                assert!(k < info.len);
+                assert!(T::same(x, y));
+                assert!(T::well_formed(x));
+            }
+            _ => panic!("nth and next disagree on whether item k exists"),
+        }
+        // and both decoders continue identically
+        match (d1.next(), d2.next()) {
+            (None, None) => {}
+            (Some(x), Some(y)) => assert!(T::same(x, y)),
+            _ => panic!("decoders diverge after the jump"),
+        }
+        kani::cover!(N < 2 || (k > 0 && k < info.len));
+        kani::cover!(N < 2 || k == 0);
+    }
+}
+
+macro_rules! rle_harness {
+    ($name:ident, $f:ident, $t:ty, $n:expr, $unwind:expr) => {
+        #[kani::proof]
+        #[kani::unwind($unwind)]
+        #[kani::stub(alloc::fmt::format, crate::verif_kani::stub_format)]
+        #[kani::stub(<crate::codec::Leb128 as crate::codec::Codec>::read_unsigned, crate::verif_kani::ref_read_unsigned)]
+        #[kani::stub(<crate::codec::Leb128 as crate::codec::Codec>::read_signed, crate::verif_kani::ref_read_signed)]
+        #[kani::stub(<crate::codec::Leb128 as crate::codec::Codec>::try_read_unsigned, crate::verif_kani::ref_try_read_unsigned)]
+        #[kani::stub(<crate::codec::Leb128 as crate::codec::Codec>::try_read_signed, crate::verif_kani::ref_try_read_signed)]
+        fn $name() {
+            $f::<$t, $n>()
+        }
+    };
+}
+rle_harness!(rle_validate_then_decode_u64_len2, validate_then_decode, u64, 2, 6);
+rle_harness!(rle_validate_then_decode_u64_len3, validate_then_decode, u64, 3, 7);
+rle_harness!(rle_validate_then_decode_u64_len4, validate_then_decode, u64, 4, 8);
+rle_harness!(rle_validate_then_decode_u64_len5, validate_then_decode, u64, 5, 9);
+rle_harness!(rle_validate_then_decode_opt_u64_len2, validate_then_decode, Option<u64>, 2, 6);
+rle_harness!(rle_validate_then_decode_opt_u64_len3, validate_then_decode, Option<u64>, 3, 7);
+rle_harness!(rle_validate_then_decode_opt_u64_len4, validate_then_decode, Option<u64>, 4, 8);
+rle_harness!(rle_validate_then_decode_string_len3, validate_then_decode, String, 3, 7);
+rle_harness!(rle_validate_then_decode_string_len4, validate_then_decode, String, 4, 8);
+rle_harness!(rle_validate_then_decode_opt_string_len4, validate_then_decode, Option<String>, 4, 8);
+rle_harness!(rle_nth_agrees_with_next_u64_len3, nth_agrees_with_next, u64, 3, 7);
+rle_harness!(rle_nth_agrees_with_next_u64_len4, nth_agrees_with_next, u64, 4, 8);
+rle_harness!(rle_nth_agrees_with_next_opt_u64_len3, nth_agrees_with_next, Option<u64>, 3, 7);
+rle_harness!(rle_nth_agrees_with_next_opt_u64_len4, nth_agrees_with_next, Option<u64>, 4, 8);
+rle_harness!(rle_nth_agrees_with_next_opt_u64_len5, nth_agrees_with_next, Option<u64>, 5, 9);
+rle_harness!(rle_nth_agrees_with_next_opt_string_len4, nth_agrees_with_next, Option<String>, 4, 8);
